@@ -21,7 +21,7 @@ def run(ctx):
             u2.prop = "C05"
             units.append(u2)
     from contracts import wrapf_helpers, wrapp_cppif
-    units += wrapf_helpers.UNITS + wrapp_cppif.UNITS
+    units += wrapf_helpers.UNITS + wrapp_cppif.UNITS + fc_args.UNITS_C05
     skip = [k["skip"] for k in ctx.known if k["status"] == "open" and k.get("skip")]
     for k in ctx.known:
         if k["status"] == "open":
